@@ -38,6 +38,54 @@ class Program(Unit):
     def props_of(self, ob):
         return [self.concern]
 
+    # ---- C05: element QNames on the wire live in #[yaserde(..)] attribute TEXT; compared as text with what the WSDL binds
+    def wire_checks(self):
+        """[(obligation label, ok, detail)] — decided by comparing attribute text, not by the verifier"""
+        if self.concern != 'C05':
+            return []
+        sp, em, m = self.sp, self.em, self.model
+        res = []
+        roots = em.structs(None)
+
+        def attr(txt, key):
+            mm = re.search(key + r'\s*=\s*"([^"]*)"', txt)
+            return mm.group(1) if mm else None
+
+        def expect(label, st, idx, want_prefix, want_name):
+            if st is None:
+                res.append((label, False, 'struct not emitted'))
+                return
+            fs = Emitted.fields(st)
+            if idx >= len(fs):
+                res.append((label, False, 'member not emitted'))
+                return
+            a = fs[idx][2]
+            got = (attr(a, 'prefix'), attr(a, 'rename'))
+            ok = got == (want_prefix, want_name)
+            res.append((label, ok, f'emitted prefix/rename {got}, bound element is {{{want_prefix}}}{want_name}'))
+        for op in m.operations:
+            env0 = next((n for n in roots if canon(n) == canon(op.name) + 'inputenvelope'), M.pascal(op.name) + 'InputEnvelope')
+            P = env0[:-len('InputEnvelope')]
+            for side, heads, body in (('Input', op.input_headers, op.input_body), ('Output', op.output_headers, op.output_body)):
+                if body is None:
+                    continue
+                env = f'{P}{side}Envelope'
+                pre = lambda ns: em.mod_prefix.get(sp.module_of(ns))
+                expect(f'wire:{env}Body.{body[2]}#element-qname', roots.get(env + 'Body'), 0, pre(body[1]), body[2])
+                for i, h in enumerate(heads):
+                    expect(f'wire:{env}Header.{h[0]}#element-qname', roots.get(env + 'Header'), i, pre(h[1]), h[2])
+                k = 0
+                if heads:
+                    expect(f'wire:{env}.header#soap-header', roots.get(env), 0, 'soapenv', 'Header')
+                    k = 1
+                expect(f'wire:{env}.body#soap-body', roots.get(env), k, 'soapenv', 'Body')
+                st = roots.get(env)
+                if st is not None:
+                    a = em.attr_text(st)
+                    ok = attr(a, 'prefix') == 'soapenv' and attr(a, 'rename') == 'Envelope' and '"soapenv" = "http://schemas.xmlsoap.org/soap/envelope/"' in a
+                    res.append((f'wire:{env}#soap-envelope-element', ok, 'struct attribute ' + a[:160]))
+        return res
+
     def front_end_obligations(self, out):
         return [c.label for c in out.chunks if c.label and (c.label.startswith('shape:') or c.label.startswith('sig:'))]
 
@@ -74,7 +122,7 @@ class Program(Unit):
         out = Out()
         out.spec(HEAD)
         self._trusted = prelude(out, ['ax-rc', 'ax-parse', 'ax-string-eq', 'ax-tryfrom', 'ax-from-unsigned',
-                                      'stdspec-parse', 'stdspec-chars', 'stdspec-contains', 'stdspec-drop'],
+                                      'stdspec-parse', 'stdspec-chars', 'stdspec-bytelen', 'ax-bytelen', 'stdspec-contains', 'stdspec-drop'],
                                 [('dep_reqwest.rs', ['reqwest-error', 'reqwest-client']),
                                  ('dep_yaserde.rs', ['io-traits', 'io-write-trait-opaque', 'io-traits-end', 'xml', 'yaserde-begin', 'yaserde-traits', 'yaserde-end'])])
         self.check_helpers_verbatim(repo, em)
@@ -222,7 +270,7 @@ class Program(Unit):
             return (None, None, None)
         # root: envelopes
         for op in m.operations:
-            P = M.pascal(op.name)
+            P = self.op_pascal(op)
             for side, heads, body in (('Input', op.input_headers, op.input_body), ('Output', op.output_headers, op.output_body)):
                 if body is None:
                     continue
@@ -234,6 +282,14 @@ class Program(Unit):
                 if tname == env + 'Body':
                     return self.sat_members(self.present(st_item, [M.snake(body[2])]))
         return (None, None, None)
+
+    def op_pascal(self, op) -> str:
+        """the spelling the emitted envelope structs use for this operation (PascalCase up to acronym handling):
+        found by a case- and separator-insensitive match, falling back to the reader's own PascalCase"""
+        for n in self.em.structs(None):
+            if n.endswith('InputEnvelope') and canon(n) == canon(op.name) + 'inputenvelope':
+                return n[:-len('InputEnvelope')]
+        return M.pascal(op.name)
 
     def present(self, st_item: Optional[Item], expected: List[str]) -> List[str]:
         """the declared members that exist in the emitted struct (by name, keyword respelling allowed), in declaration
@@ -340,7 +396,7 @@ class Program(Unit):
                     n += 1
         if self.concern == 'C05':
             for op in m.operations:
-                P = M.pascal(op.name)
+                P = self.op_pascal(op)
                 for side, heads, body in (('Input', op.input_headers, op.input_body), ('Output', op.output_headers, op.output_body)):
                     if body is None:
                         continue
@@ -404,3 +460,7 @@ class Program(Unit):
 
 
 from ..l3.specgen import MUST as MUST_ESC
+
+
+def canon(name: str) -> str:
+    return re.sub(r'[^a-z0-9]', '', name.lower())
